@@ -1624,7 +1624,13 @@ pub fn run_into(sink: &mut Sink, cfg: &Cfg, prop: &str, n: usize) {
         }
         let replay = out.op.clone();
         sink.oracle(!out.panicked, "verification panicked", &replay);
-        sink.oracle(!out.hung, "verification did not come back within 60 seconds", &replay);
+        sink.oracle(!out.hung, "verification did not come back within the deadline (five minutes)", &replay);
+        // (once a call did not come back, the worker thread is lost and nothing after it is a verification any more:
+        // the one report above stands, comparisons of answers that are no answers would only repeat it)
+        if crate::proto::HUNG.load(std::sync::atomic::Ordering::SeqCst) {
+            sink.stat("after-a-call-that-did-not-come-back/skipped");
+            continue;
+        }
         // ---- the property itself, from constructed ground truth
         for f in &fatal {
             if f.0 == prop || (prop == "C08" && f.0 == "C08") || prop == "C12" {
